@@ -80,7 +80,11 @@ def draw_spec(rng, st, mm, nvdim, dtype, allow_field=True, depth=0):
         if dd["t"] == "array":
             dd = {"t": "fn", "a": dd["a"]}
         d["default"] = dd
-        return {"t": "dict", "d": d}
+        # the order in which the caller writes the keys must not matter: precedence is
+        # the order of the mesh's subregions
+        order = list(d)
+        rng.shuffle(order)
+        return {"t": "dict", "d": {k: d[k] for k in order}}
     srcs = [s for s in st.slots("F") if st.h[s].fm.nvdim == nvdim and ops_field.field_covers(st, {"t": "field", "src": s}, mm)]
     if not srcs:
         return {"t": "array", "a": draw_table(rng)}
@@ -125,7 +129,10 @@ def draw_faulty(rng, st, s, h, via):
         o.update(why="dict without default and missing keys", spec={"t": "dict", "d": {kx: {"t": "const", "v": [1.0] * nvdim if nvdim > 1 else 1.0} for kx in keys}})
     else:
         srcs = [s2 for s2 in st.slots("F") if s2 != s and st.h[s2].fm.nvdim == nvdim]
-        if not srcs:
+        wrong = [s2 for s2 in st.slots("F") if s2 != s and st.h[s2].fm.nvdim != nvdim and st.h[s2].box.v.region.dims == mm.region.dims]
+        if wrong and rng.random() < 0.6:
+            o.update(why="source field with the wrong component count", spec={"t": "field", "src": rng.choice(wrong), "wrong_nvdim": True})
+        elif not srcs:
             o.update(why="wrong type (str)", spec={"t": "raw", "v": "abc"})
         else:
             o.update(why="source field on a non-covering mesh", spec={"t": "field", "src": rng.choice(srcs)})
@@ -337,9 +344,11 @@ class NormProfile(FieldProfile):
             else:
                 spec = {"t": t, "a": self.table(rng, cfg, h.fm.nvdim)}
             return {"op": "F.update", "on": s, "spec": spec, "via": rng.choice(["update", "array"])}
-        if r < 0.8:
+        if r < 0.7:
             return {"op": "F.getnorm", "on": s, "what": "norm", "out": out}
-        return {"op": "F.getnorm", "on": s, "what": "orientation", "out": out}
+        if r < 0.85:
+            return {"op": "F.getnorm", "on": s, "what": "orientation", "out": out}
+        return {"op": "F.poke", "on": s, "i": rng.randrange(10**6), "v": [rng.choice([0.0, 1.0, -3.0, 2.5, 1e3]) for _ in range(h.fm.nvdim)], "whole_cell": rng.random() < 0.7}
 
 
 class AlgebraProfile(FieldProfile):
@@ -494,7 +503,7 @@ class ValidityProfile(FieldProfile):
             o = draw_field_new(rng, ms, out, st.h[ms].box.v, dtypes=cfg["dtypes"], p_valid=0.85, p_unmapped=0.1)
             if rng.random() < 0.5:
                 # magnitudes for valid="norm": exact zero, <=1e-10 or >=1e-6
-                o["value"] = {"kind": "rint", "seed": rng.randrange(2**31), "lo": -1, "hi": 2, "step": rng.choice([1.0, 1e-10, 1e-6, 1e3])}
+                o["value"] = {"kind": "rint", "seed": rng.randrange(2**31), "lo": -1, "hi": 2, "step": rng.choice([1.0, 1e-10, 1e-6, 1e3, 8e-9, 8e-9, 5e-9, 2e-8])}
             return o
         a = rng.choice(fields)
         ha = st.h[a]
